@@ -33,7 +33,7 @@ import c15_calls  # noqa: E402
 import c15_extract  # noqa: E402
 
 PID = "C15"
-PROPS = ["PfModel.Props.C15", "PfModel.Props.C15Keys", "PfModel.Props.C15Sort", "PfModel.Props.C15Src"]
+PROPS = ["PfModel.Props.C15", "PfModel.Props.C15Keys", "PfModel.Props.C15Sort", "PfModel.Props.C15Pandas", "PfModel.Props.C15Calls", "PfModel.Props.C15Src"]
 GENERATED = True          # Props/C15Src.lean is proved against lean/PfModel/Generated/C15Facts.lean, regenerated from the source on every run
 DRIVER = "C15"
 RULE = ("values from one seeded recursive generator (depth <= 3) over None/bool/int/float(half-integers, inf, nan, -0.0)/str/bytes/"
@@ -48,7 +48,12 @@ RULE = ("values from one seeded recursive generator (depth <= 3) over None/bool/
         "by keyword / in another keyword order / with defaults given explicitly and with look-alike values; compute_cache_key "
         "directly; cached one- and two-function pipelines through Pipeline.__call__ with every cache type; Pipeline.map with a "
         "cache. A call case is non-trivial always (every call carries at least one argument); distinct by signature, passing "
-        "style and argument specs")
+        "style and argument specs. Round 3: a pandas batch per run (Series / DataFrames from label families — 0..n-1, shifted / scaled "
+        "ints, str, digit strings, floats, dates, tuples — and their look-alikes: the same cells under other labels or the same labels as "
+        "another type, rows / columns / only labels / only cells moved, repeated labels, renamed, as dict / list / one-column frame), each "
+        "top-level one compared with seriesKey / frameKey; memoized functions with *args / **kwargs / an optional parameter called with "
+        "base calls and their call look-alikes (the same leaves laid out differently over positionals and keywords), the key memoize "
+        "really hands to its cache recorded by a SimpleCache subclass")
 ASSUMPTIONS = ["int, float and bool of equal value are one model value (Python == and hash do not distinguish them; the statement is read "
                "with Python's ==)", "floats are half-integers, inf or nan; nan equality is object identity (fresh objects for ndarray data)",
                "md5 of the cloudpickle bytes is treated as collision-free (opaque digest in the model); pandas objects and fallback "
@@ -59,7 +64,9 @@ ASSUMPTIONS = ["int, float and bool of equal value are one model value (Python =
                "the translator harness/c15_extract.py reads the isinstance chain of to_hashable with ast; its vocabulary (helper "
                "called, sort flag, leading attributes) is trusted to describe what the branch does",
                "'effective arguments' of a call are what inspect.Signature.bind + apply_defaults computes (bindArgs in the model, "
-               "compared with inspect on every run); only positional-or-keyword parameters are generated"]
+               "compared with inspect on every run); positional-or-keyword parameters, optionally followed by *args / **kwargs (bindSig)",
+               "a Series / DataFrame is its labels (index, columns, name) and its cells, compared with == (dtype, Index class are not part of "
+               "the value); pandas `tolist()` is trusted to read labels and cells for the model's serieskeys / framekeys requests"]
 
 HARNESS = Path(__file__).resolve().parent.parent
 M = V.MARKER
@@ -194,6 +201,163 @@ def g_family_lookalikes(rng):
     return ["dict", [[["str", "k"], s]]]
 
 
+# ---- pandas: a Series is its name + rows (label, value) in row order, a DataFrame its index labels + columns (label, values)
+LABELS = {"range": lambda i: ["int", i], "shift": lambda i: ["int", i + 1], "tens": lambda i: ["int", 10 * (i + 1)],
+          "abc": lambda i: ["str", "abcd"[i]], "xyz": lambda i: ["str", "xyzw"[i]], "ts": lambda i: ["ts", i], "ts7": lambda i: ["ts", i + 7],
+          "half": lambda i: ["float", i + 0.5], "neg": lambda i: ["int", -i], "digits": lambda i: ["str", str(i)], "floats": lambda i: ["float", float(i)], "pair": lambda i: ["tuple", [["str", "k"], ["int", i]]]}
+SERIES_NAMES = ["x", "y", "v", None, ["int", 0], ["tuple", [["str", "x"], ["int", 1]]]]
+
+
+def g_labels(rng, n, fam=None):
+    fam = fam or rng.choice(list(LABELS))
+    return [LABELS[fam](i) for i in range(n)]
+
+
+def g_cell(rng, fam):
+    if fam == "int":
+        return ["int", rng.choice([1, 2, 5])]
+    if fam == "float":
+        return ["float", rng.choice([0.5, 1.0, 2.0, 5.0])]
+    if fam == "str":
+        return ["str", rng.choice(["a", "b", "ab"])]
+    if fam == "bool":
+        return ["bool", rng.random() < 0.5]
+    return rng.choice([["list", [["int", rng.choice([1, 2])]]], ["tuple", [["int", 1], ["int", rng.choice([1, 2])]]], ["int", 1], ["str", "a"], ["none"]])
+
+
+def g_series(rng):
+    n = rng.choice([0, 1, 2, 2, 3, 3, 4])
+    fam = rng.choice(["int", "int", "float", "str", "bool", "obj"])
+    return ["series", rng.choice(SERIES_NAMES), [[l, g_cell(rng, fam)] for l in g_labels(rng, n)]]
+
+
+def g_df(rng):
+    n = rng.choice([0, 1, 2, 2, 3])
+    cols = rng.choice([["a"], ["a", "b"], ["b", "a"], ["x", "y"], [["int", 0], ["int", 1]], ["a", "b", "c"], [], [["int", 1]]])
+    return ["df", g_labels(rng, n), [[c, [g_cell(rng, fam) for _ in range(n)]] for c in cols for fam in [rng.choice(["int", "float", "str", "obj"])]]]
+
+
+def g_pandas(rng):
+    r = rng.random()
+    if r < 0.55:
+        return g_series(rng)
+    if r < 0.9:
+        return g_df(rng)
+    return rng.choice([["ts", rng.randrange(3)], ["list", [g_series(rng)]], ["dict", [[["str", "k"], g_series(rng)]]], ["tuple", [g_df(rng), ["int", 1]]]])
+
+
+def retype_pandas(rng, s):  # noqa: PLR0911
+    """look-alikes of a Series / DataFrame that keep the values at their positions"""
+    t = s[0]
+    r = rng.random()
+    if t == "series":
+        rows = s[2]
+        if r < 0.33:                  # the same values at the same positions under other index labels
+            return ["series", s[1], [[l, v] for l, (_, v) in zip(g_labels(rng, len(rows)), rows)]]
+        if r < 0.45:                  # … under the same labels as another type (0 / "0" / 0.0 / False, "a" / b"a")
+            return ["series", s[1], [[_retype_label(rng, l), v] for l, v in rows]]
+        if r < 0.55:
+            return ["series", rng.choice(SERIES_NAMES), rows]
+        if r < 0.65:                  # the dict / the list / the ndarray the Series was made of
+            return ["dict", [[l, v] for l, v in rows]] if all(hashable_spec(l) for l, _ in rows) else ["list", [v for _, v in rows]]
+        if r < 0.75:
+            return [rng.choice(["list", "tuple"]), [v for _, v in rows]]
+        if r < 0.9:                   # the one-column DataFrame
+            return ["df", [l for l, _ in rows], [[s[1] if s[1] is not None else "x", [v for _, v in rows]]]]
+        return ["tuple", [s[1] if isinstance(s[1], list) else (["str", s[1]] if s[1] is not None else ["none"]), ["dict", [[l, v] for l, v in rows]]]]
+    idx, cols = s[1], s[2]
+    if r < 0.3:                       # other index labels (the known finding: the index never reaches the key)
+        return ["df", g_labels(rng, len(idx)), cols]
+    if r < 0.5:                       # other column labels over the same cells
+        new = rng.choice([["a", "b", "c"], ["x", "y", "z"], [["int", 0], ["int", 1], ["int", 2]], ["b", "a", "c"], ["b", "c", "a"], ["0", "1", "2"]])
+        return ["df", idx, [[new[i % 3], vs] for i, (_, vs) in enumerate(cols)]]
+    if r < 0.6:                       # the same column labels as another type
+        return ["df", idx, [[_retype_label(rng, c if isinstance(c, list) else ["str", c]), vs] for c, vs in cols]]
+    if r < 0.75 and cols:             # one column as a Series
+        c, vs = rng.choice(cols)
+        return ["series", c, [[l, v] for l, v in zip(idx, vs)]]
+    if r < 0.9:                       # to_dict("list") itself, and as lists of rows
+        return ["dict", [[c if isinstance(c, list) else ["str", c], ["list", vs]] for c, vs in cols]]
+    return ["list", [["list", [vs[i] for _, vs in cols]] for i in range(len(idx))]]
+
+
+def _retype_label(rng, l):
+    if l[0] == "int":
+        return rng.choice([["str", str(l[1])], ["float", float(l[1])], ["str", str(l[1])]])
+    if l[0] == "str":
+        return ["int", int(l[1])] if l[1].isdigit() else rng.choice([["bytes", [ord(c) for c in l[1] if ord(c) < 128]], ["tuple", [l]]])
+    if l[0] == "float":
+        return ["str", str(float(l[1]))] if l[1] not in ("inf", "-inf") else l
+    if l[0] == "ts":
+        return ["str", f"2024-01-{l[1] + 1:02d} 00:00:00"]
+    return l
+
+
+def permute_pandas(rng, s):
+    s = copy.deepcopy(s)
+    r = rng.random()
+    if s[0] == "series":
+        rows = s[2]
+        if len(rows) < 2:
+            return s
+        if r < 0.4:                   # whole rows move (same label -> value mapping: the known finding)
+            rng.shuffle(rows)
+        elif r < 0.7:                 # the labels move, the values stay
+            ls = [l for l, _ in rows]
+            ls = ls[1:] + ls[:1]
+            s[2] = [[l, v] for l, (_, v) in zip(ls, rows)]
+        else:                         # the values move, the labels stay
+            vs = [v for _, v in rows]
+            vs = vs[1:] + vs[:1]
+            s[2] = [[l, v] for (l, _), v in zip(rows, vs)]
+        return s
+    idx, cols = s[1], s[2]
+    if r < 0.35 and len(cols) > 1:    # whole columns move (the known finding: the dict branch sorts the columns)
+        rng.shuffle(cols)
+    elif r < 0.6 and len(cols) > 1:   # the column labels move, the cells stay
+        ls = [c for c, _ in cols]
+        ls = ls[1:] + ls[:1]
+        s[2] = [[l, vs] for l, (_, vs) in zip(ls, cols)]
+    elif len(idx) > 1:                # whole rows move
+        order = list(range(len(idx)))
+        rng.shuffle(order)
+        s[1] = [idx[i] for i in order]
+        s[2] = [[c, [vs[i] for i in order]] for c, vs in cols]
+    return s
+
+
+def perturb_pandas(rng, s):  # noqa: PLR0911
+    s = copy.deepcopy(s)
+    r = rng.random()
+    if s[0] == "series":
+        rows = s[2]
+        if not rows or r < 0.2:
+            return ["series", s[1], rows + [[LABELS[rng.choice(["tens", "xyz"])](len(rows) % 4), ["int", 1]]]]
+        i = rng.randrange(len(rows))
+        if r < 0.55:
+            rows[i][1] = g_cell(rng, rng.choice(["int", "float", "str", "obj"]))
+        elif r < 0.7:
+            del rows[i]
+        elif r < 0.85 and len(rows) > 1:   # a repeated index label (to_dict keeps its last row only: the known finding)
+            rows[i][0] = rows[i - 1][0]
+        else:
+            rows[i][0] = rng.choice([["int", 7], ["str", "q"], ["ts", 3]])
+        return s
+    idx, cols = s[1], s[2]
+    if not cols or r < 0.15:
+        return ["df", idx, cols + [[rng.choice(["q", "a", ["int", 2]]), [["int", 1] for _ in idx]]]]
+    j = rng.randrange(len(cols))
+    if r < 0.55 and idx:
+        cols[j][1][rng.randrange(len(idx))] = g_cell(rng, rng.choice(["int", "float", "str", "obj"]))
+    elif r < 0.7:
+        del cols[j]
+    elif r < 0.85 and len(cols) > 1:       # a repeated column label
+        cols[j][0] = cols[j - 1][0]
+    else:
+        cols[j][0] = rng.choice(["q", ["int", 9]])
+    return s
+
+
 def g_outside(rng):  # noqa: PLR0911
     """The stream outside the modelled fragment / outside what the generator considers well-formed."""
     r = rng.randrange(18)
@@ -212,10 +376,9 @@ def g_outside(rng):  # noqa: PLR0911
     if r == 3:
         return ["set", [["nan", 0], ["float", 1.0], ["float", 0.0]]]
     if r == 4:
-        idx = rng.choice([[0, 1], [5, 6], [1, 0]])
-        return ["df", [["int", i] for i in idx], [["a", [["int", 1], ["int", 2]]], ["b", [["float", 0.5], ["float", rng.choice([1.0, 2.0])]]]]]
+        return g_df(rng)
     if r == 5:
-        return ["series", rng.choice(["x", "y", None]), [[["int", i], ["int", rng.choice([1, 2])]] for i in rng.choice([[0, 1], [1, 0], [5, 6]])]]
+        return g_series(rng) if rng.random() < 0.8 else g_pandas(rng)
     if r == 6:
         return ["obj", rng.random() < 0.3, [g_value(rng, 2) for _ in range(rng.randint(0, 2))]]
     if r == 7:
@@ -315,6 +478,8 @@ def key_to_spec(k):
 
 def retype(rng, s):  # noqa: C901, PLR0911, PLR0912
     t = s[0]
+    if t in ("series", "df"):
+        return retype_pandas(rng, s)
     if t in ("tuple", "list", "sublist"):
         to = rng.choice(["tuple", "list", "deque", "set", "sublist", "fset"])
         if to == "deque":
@@ -393,6 +558,8 @@ def retype(rng, s):  # noqa: C901, PLR0911, PLR0912
 def permute(rng, s):
     s = copy.deepcopy(s)
     t = s[0]
+    if t in ("series", "df"):
+        return permute_pandas(rng, s)
     if t in ("set", "fset", "dict", "odict", "subdict", "counter"):
         rng.shuffle(s[1])
     elif t == "ddict":
@@ -407,6 +574,8 @@ def permute(rng, s):
 def perturb(rng, s):
     ks = kids(s)
     t = s[0]
+    if t in ("series", "df"):
+        return perturb_pandas(rng, s)
     if t in ("set", "fset"):
         fam = g_family(rng, 1)
         return [t, (s[1] + fam) if rng.random() < 0.5 or not s[1] else s[1][1:]]
@@ -480,14 +649,15 @@ def lookalike(rng, s):
         return copy.deepcopy(s)
 
 
-def make_batch(rng, n, outside=0.06):
+def make_batch(rng, n, outside=0.06, base=None, p_base=0.0):
+    """`base`: a second generator of fresh values (the pandas family), drawn with probability `p_base` instead of `g_value`"""
     specs = []
     while len(specs) < n:
         r = rng.random()
         if r < outside:
             s = g_outside(rng)
         elif r < 0.42 or not specs:
-            s = g_value(rng)
+            s = base(rng) if base is not None and rng.random() < p_base else g_value(rng)
         else:
             s = lookalike(rng, rng.choice(specs))
         try:
@@ -515,6 +685,21 @@ def _walk(obj, seen=None):
     elif isinstance(obj, V.Obj):
         for x in obj.attrs:
             yield from _walk(x)
+    elif type(obj).__module__.split(".")[0] == "pandas" and type(obj).__name__ in ("Series", "DataFrame"):
+        d = _pandas_dict(obj)                      # what the key is built from: its keys are sorted like those of any dict
+        if d is not None:
+            yield from _walk(d)
+
+
+def _pandas_dict(x):
+    import warnings
+    import pandas as pd
+    try:
+        with warnings.catch_warnings():
+            warnings.simplefilter("ignore")
+            return x.to_dict() if isinstance(x, pd.Series) else x.to_dict("list")
+    except Exception:  # noqa: BLE001
+        return None
 
 
 def _sorted_collections(obj):
@@ -571,12 +756,21 @@ def _m_partial(case, params, impl, model):
 
 @framework.finding_matcher("c15_pandas_lossy_key")
 def _m_df(case, params, impl, model):
-    """Both values hold pandas objects that differ, but whose `to_dict("list")` (DataFrame: the index is dropped) or
-    `to_dict()` + name (Series: the row order is dropped) — the only things the key is built from — are equal."""
-    if case.get("kind") not in ("collision", "memo") or case.get("b") is None:
+    """Both values hold pandas objects that differ, but whose `to_dict("list")` (DataFrame) or `to_dict()` + name (Series) —
+    the only things the key is built from — are the same dicts: what `to_dict` drops (the DataFrame index, the rows / columns
+    under a repeated label but the last) and what the sorting `dict` branch drops (Series row order, DataFrame column order)."""
+    if case.get("kind") not in ("collision", "memo", "memo-call", "pipeline-call", "map-cache", "pipe-key") or case.get("b") is None:
         return False
     import pandas as pd
-    a, b = V.build(case["a"]), V.build(case["b"])
+    try:
+        if case["kind"] == "map-cache":                  # "a" lists the element values, "i" / "j" are the two that share a result
+            if "i" not in case:
+                return False
+            a, b = V.build(case["a"][case["i"]]), V.build(case["a"][case["j"]])
+        else:
+            a, b = V.build(case["a"]), V.build(case["b"])
+    except Exception:  # noqa: BLE001
+        return False
     fa = [x for x in _walk(a) if isinstance(x, (pd.DataFrame, pd.Series))]
     fb = [x for x in _walk(b) if isinstance(x, (pd.DataFrame, pd.Series))]
     if not fa or len(fa) != len(fb):
@@ -585,14 +779,12 @@ def _m_df(case, params, impl, model):
     for x, y in zip(fa, fb):
         if type(x) is not type(y):
             return False
-        if isinstance(x, pd.DataFrame):
-            if x.to_dict("list") != y.to_dict("list"):
-                return False
-            differ |= not x.index.equals(y.index)
-        else:
-            if x.to_dict() != y.to_dict() or not V.leaf_eq(x.name, y.name):
-                return False
-            differ |= not x.index.equals(y.index)
+        dx, dy = _pandas_dict(x), _pandas_dict(y)
+        if dx is None or dy is None or not V.py_same(dx, dy):
+            return False
+        if isinstance(x, pd.Series) and not V.py_same(x.name, y.name):
+            return False
+        differ |= not V.py_same(x, y)
     return differ
 
 
@@ -644,6 +836,21 @@ CORPUS = [
     ["nd", [], "<i8", [1]], ["nd", [1], "<i8", [1]], ["ma", [2], "<i8", [1, 2], [0, 0]], ["nd", [2], "<i8", [1, 2]],
     ["ma", [3], "<i8", [1, 2, 3], [0, 1, 0]],                                                          # masked element: MaskedConstant in the key
     ["nds", [["a", "<i4"], ["b", "<f4"]], [[1, 2]]],                                                   # np.void in the key
+    # round 3 (seeded C15-s3-A): Series with the same values at the same positions under other index labels — str, shifted / scaled
+    # ints, the default 0..n-1, dates; a label-dependent function (idxmax, .loc) tells them apart
+    *[["series", "v", [[LABELS[f](i), ["float", x]] for i, x in enumerate([1.0, 5.0, 2.0])]] for f in ("abc", "xyz", "tens", "range", "shift", "ts", "ts7", "digits", "floats")],
+    ["series", "v", [[["int", 0], ["int", 1]], [["int", 0], ["int", 2]]]], ["series", "v", [[["int", 0], ["int", 3]], [["int", 0], ["int", 2]]]],  # repeated label
+    ["series", "v", [[["int", 0], ["int", 1]], [["int", 1], ["int", 2]]]], ["series", "v", [[["int", 0], ["float", 1.0]], [["int", 1], ["float", 2.0]]]],  # int64 / float64
+    ["series", None, []], ["dict", []], ["series", "v", [[["str", "a"], ["list", [["int", 1]]]]]], ["series", "v", [[["str", "a"], ["tuple", [["int", 1]]]]]],
+    ["dict", [[["str", "a"], ["float", 1.0]], [["str", "b"], ["float", 5.0]], [["str", "c"], ["float", 2.0]]]],
+    # DataFrames: column labels, column order (lost), index (lost), cells, a repeated column label
+    *[["df", [["int", 0], ["int", 1]], [[c1, [["int", 1], ["int", 2]]], [c2, [["float", 0.5], ["float", 1.0]]]]] for c1, c2 in (("a", "b"), ("b", "a"), ("x", "y"))],
+    ["df", [["int", 0], ["int", 1]], [["b", [["float", 0.5], ["float", 1.0]]], ["a", [["int", 1], ["int", 2]]]]],
+    ["df", [["str", "p"], ["str", "q"]], [["a", [["int", 1], ["int", 2]]], ["b", [["float", 0.5], ["float", 1.0]]]]],
+    ["df", [["int", 0], ["int", 1]], [["a", [["int", 2], ["int", 1]]], ["b", [["float", 1.0], ["float", 0.5]]]]],
+    ["df", [["int", 0]], [["a", [["int", 1]]], ["a", [["int", 2]]]]], ["df", [["int", 0]], [["a", [["int", 3]]], ["a", [["int", 2]]]]],
+    ["df", [["int", 0]], [[["int", 0], [["int", 1]]], [["int", 1], [["int", 2]]]]], ["df", [], []], ["df", [["int", 0]], []],
+    ["ts", 0], ["ts", 1],
     *EMPTIES, *ONES, ["list", [["list", []]]], ["list", [["tuple", []]]], ["tuple", [["list", []]]], ["list", [["dict", []]]], ["list", [["set", []]]],
 ]
 
@@ -713,6 +920,20 @@ class Batch:
                     kj = None
             self.kpv.append(kj)
         self.model_idx = [i for i, j in enumerate(self.pv) if j is not None]
+        # top-level Series / DataFrames inside the fragment of Model/HashablePandas.lean: (index into the batch, entry, request)
+        self.pd_idx = []
+        for i, v in enumerate(self.vals):
+            if type(v).__module__.split(".")[0] == "pandas" and type(v).__name__ in ("Series", "DataFrame"):
+                try:
+                    entry, req = V.enc_pandas(self.enc, v)
+                    self.pd_idx.append((i, entry, req))
+                except V.OutOfModel:
+                    pass
+                except Exception:  # noqa: BLE001
+                    pass
+
+    def pandas_requests(self):
+        return [{"m": e, "a": {"calls": [r for _, e2, r in self.pd_idx if e2 == e]}} for e in ("serieskeys", "framekeys")]
 
     def requests(self):
         return [{"m": "keys", "a": {"values": [self.pv[i] for i in self.model_idx]}},
@@ -850,6 +1071,37 @@ def check_batch(ctx, b: Batch, resp, resp_shuf, child_lines):  # noqa: C901, PLR
                               found_input=False, item="correspondence:equal-values")
 
 
+def check_pandas_model(ctx, b: Batch, resp_series, resp_frames):
+    """the key of a Series / DataFrame against `seriesKey` / `frameKey` (the functions the theorems of Props/C15Pandas are about)"""
+    it = {"serieskeys": iter(resp_series), "framekeys": iter(resp_frames)}
+    for i, entry, _req in b.pd_idx:
+        r = next(it[entry])
+        st, k = b.keys[i]
+        spec = b.specs[i]
+        ctx.count(f"pandas-model:{entry}")
+        if "unspec" in r:
+            ctx.count("pandas-model:unspecified-partial-order")
+            continue
+        if "err" in r:
+            ctx.count(f"pandas-model:err:{r['err']}")
+            if not (st == "exc" and k == r["err"]):
+                ctx.violation({"kind": "model-err", "a": spec}, f"pandas model: {r['err']}, implementation: {st} {str(k)[:80]}", found_input=False,
+                              item="correspondence:pandas-defined", impl=str(k)[:200], model=r)
+            continue
+        if st != "ok":
+            ctx.violation({"kind": "model-err", "a": spec}, f"implementation raised {k}, the pandas model returns a key", found_input=False,
+                          item="correspondence:pandas-defined", impl=k, model=r)
+            continue
+        try:
+            kj = V.dumps(V.norm_fresh(b.enc.enc(k)))
+        except Exception:  # noqa: BLE001
+            kj = None
+        if kj != V.dumps(V.norm_fresh(r["key"])):
+            ctx.violation({"kind": "model-key", "a": spec}, "implementation and pandas model (seriesKey / frameKey) build different keys "
+                          "(no property clause fails on this input)", found_input=False, item="correspondence:pandas-key",
+                          impl=repr(k)[:300], model=r["key"])
+
+
 def same_nan_equal(a, b):
     V.NAN_EQUAL = True
     try:
@@ -959,7 +1211,7 @@ def call_checks(ctx, b: Batch, rng, tmp, scale):
     idx = [i for i in idx if b.pv[i] is not None or rng.random() < 0.15][:200]
     cc = c15_calls.CallCheck(ctx, rng, [b.specs[i] for i in idx], [b.vals[i] for i in idx], [b.pv[i] for i in idx], tmp)
     cc.enc = b.enc
-    cc.memoize_stream(4 * scale, 24).bind_stream(60 * scale).pipekey_stream(3 * scale, 10).pipeline_stream(4 * scale, 16).map_stream(3 * scale, 9)
+    cc.memoize_stream(4 * scale, 24).varcall_stream(2 * scale, 5).bind_stream(60 * scale).bindsig_stream(60 * scale).pipekey_stream(3 * scale, 10).pipeline_stream(4 * scale, 16).map_stream(3 * scale, 9)
     return cc
 
 
@@ -971,6 +1223,8 @@ def sorted_with_ties(ctx, rng, n):
     lists, expect = [], []
     for _ in range(n):
         fam = g_family(rng, rng.randint(1, 3))
+        if not fam:                                          # (every candidate of the family was a repeat or was skipped)
+            continue
         ks = [rng.choice(fam) for _ in range(rng.randint(0, 6))]
         if fam and fam[0][0] in ("int", "float", "bool"):
             ks = [retype(rng, k) if k[0] in ("int", "bool") and k[1] in (0, 1, True, False) and rng.random() < 0.4 else k for k in ks]
@@ -1010,6 +1264,8 @@ def run(ctx):
         batches_specs = [copy.deepcopy(CORPUS) + make_batch(rng, 60, outside=0.0)]
         for _ in range(n_batches):
             batches_specs.append(make_batch(rng, size))
+        for _ in range(ctx.n(1, 8)):                           # the pandas family: Series / DataFrames and their look-alikes
+            batches_specs.append(make_batch(rng, 150 if ctx.tier == "quick" else 300, outside=0.02, base=g_pandas, p_base=0.8))
         batches = [Batch(ctx, s, rng) for s in batches_specs]
         reqs, memo_meta = [], []
         for b in batches:
@@ -1020,8 +1276,9 @@ def run(ctx):
                 memo_meta.append((len(reqs), m[1], m[2]))
                 reqs.append(m[0])
         call_meta = []
-        for b in batches:
-            cc = call_checks(ctx, b, rng, tmp, 3 if ctx.tier == "quick" else 6)
+        n_plain = 1 + n_batches                              # the corpus batch and the generated ones; the pandas batches follow
+        for bi, b in enumerate(batches):
+            cc = call_checks(ctx, b, rng, tmp, (3 if ctx.tier == "quick" else 6) if bi < n_plain else (1 if ctx.tier == "quick" else 3))
             if cc:
                 for req, cb in cc.reqs:
                     call_meta.append((len(reqs), cb))
@@ -1029,10 +1286,15 @@ def run(ctx):
         sw_req, sw_cb = sorted_with_ties(ctx, rng, 200 if ctx.tier == "quick" else 2000)
         call_meta.append((len(reqs), sw_cb))
         reqs.append(sw_req)
+        pd_pos = len(reqs)
+        for b in batches:
+            reqs += b.pandas_requests()
         outs = ctx.lean(reqs)
         children = run_children(batches_specs, tmp)
         for bi, b in enumerate(batches):
             check_batch(ctx, b, outs[2 * bi]["r"], outs[2 * bi + 1]["r"], [c[bi] for c in children])
+        for bi, b in enumerate(batches):
+            check_pandas_model(ctx, b, outs[pd_pos + 2 * bi]["r"], outs[pd_pos + 2 * bi + 1]["r"])
         for pos, hits, specs in memo_meta:
             compare_memo(ctx, outs[pos]["r"], hits, specs)
         for pos, cb in call_meta:
@@ -1054,8 +1316,26 @@ def replay_call(case):
         return (st, k)
 
     if kind in ("memo-call", "memo-key-model"):
-        calls = [("this call", case)] + [(n, case[n]) for n in ("stored_for", "earlier") if case.get(n)]
-        ks = [show(n, lambda c=c: to_hashable((tuple(B.b(x) for x in c["args"]), {k: B.b(v) for k, v in c["kwargs"].items()}))) for n, c in calls]
+        # run the real `memoize` over a cache that records the keys it is asked for: first the stored / earlier call, then this one
+        calls = [(n, case[n]) for n in ("stored_for", "earlier") if case.get(n)] + [("this call", case)]
+        log = []
+        if case.get("sig"):
+            f = c15_calls.make_varfunc(case["sig"], B.b(case["default_b"]), log)
+        elif case.get("params"):
+            f = c15_calls.make_func(case["params"], {p: B.b(v) for p, v in case.get("defaults", {}).items()}, log)
+        else:
+            f = c15_calls.make_varfunc("var", None, log)
+        cache = c15_calls.RecordingCache()
+        g = memoize(cache=cache)(f)
+        ks = []
+        for n, c in calls:
+            before, marks = len(log), (len(cache.asked), len(cache.stored))
+            st, res = V.describe(lambda _, c=c: g(*[B.b(x) for x in c["args"]], **{k: B.b(v) for k, v in c["kwargs"].items()}), None)
+            kst, key = cache.key_of_last_call(*marks)
+            print(f"{n}: f(*{[B.b(x) for x in c['args']]!r}, **{ {k: B.b(v) for k, v in c['kwargs'].items()} !r})"[:500])
+            print(f"   memoize's key: {key!r}"[:600])
+            print(f"   {'raised ' + str(res) if st == 'exc' else 'computed' if len(log) > before else 'SERVED FROM THE CACHE: the result of call ' + str(getattr(res, 'n', '?')) + ', arguments ' + repr(log[res.n] if hasattr(res, 'n') and res.n < len(log) else None)}"[:600])
+            ks.append((kst, key))
     elif kind in ("pipe-key", "pipe-key-model", "unhashable-key") and "roots" in case:
         calls = [("this call", case)] + ([("other", case["other"])] if case.get("other") else [])
         ks = [show(n, lambda c=c: compute_cache_key(tuple(c["out"]) if isinstance(c["out"], list) else c["out"],
@@ -1090,7 +1370,13 @@ def replay(ctx, case):
         try:
             print("   model:", json.dumps(ctx.lean([{"m": "keys", "a": {"values": [enc.enc(v)]}}])[0]["r"][0])[:600])
         except V.OutOfModel as e:
-            print("   model: outside the modelled fragment:", e)
+            try:                                           # a top-level Series / DataFrame: Model/HashablePandas.lean
+                entry, req = V.enc_pandas(enc, v)
+                r = ctx.lean([{"m": entry, "a": {"calls": [req]}}])[0]["r"][0]
+                same = st == "ok" and "key" in r and V.dumps(V.norm_fresh(enc.enc(k))) == V.dumps(V.norm_fresh(r["key"]))
+                print(f"   pandas model ({entry}): the same key as the implementation: {same}\n   ", json.dumps(r)[:600])
+            except Exception:  # noqa: BLE001
+                print("   model: outside the modelled fragment:", e)
     if case.get("a") is not None and case.get("b") is not None:
         a, b2 = B.b(case["a"]), B.b(case["b"])
         ka, kb = V.describe(to_hashable, a), V.describe(to_hashable, b2)
